@@ -62,7 +62,8 @@ def mutate_structure(tape, doc, model, other_docs):
     tagged = [(p, n) for p, n in nodes if isinstance(n, dict) and '.tag' in n]
     kind = tape.weighted([(14, 'replace-kind'), (10, 'drop-key'), (10, 'add-key'), (8, 'rename-key'),
                           (12, 'extreme'), (8, 'length'), (14, 'retag'), (6, 'move-payload'),
-                          (6, 'null-member'), (6, 'splice-subtree'), (6, 'bool-for-number')])
+                          (6, 'null-member'), (6, 'splice-subtree'), (6, 'bool-for-number'),
+                          (8, 'string-edit')])
     all_tags = sorted({g.name for u in model.types() if isinstance(u, Union) for g in model.all_tags(u)} |
                       {tg for s in model.types() if isinstance(s, Struct) and s.subtypes
                        for tg, _ in s.subtypes['tags']})
@@ -103,6 +104,15 @@ def mutate_structure(tape, doc, model, other_docs):
             return set_at(doc, path, True), kind
         p, n = nums[tape.draw(len(nums))]
         return set_at(doc, p, bool(tape.draw(2))), kind
+    if kind == 'string-edit':
+        strs = [(p, n) for p, n in nodes if isinstance(n, str) and not (p and p[-1] == '.tag')]
+        if not strs:
+            return set_at(doc, path, '!'), kind
+        p, n = strs[tape.draw(len(strs))]
+        ch = tape.choice(['!', 'A', '1', ' ', '@', 'é', '\n', '=', 'z'])
+        how = tape.draw(3)
+        new = ch + n if how == 0 else (n + ch if how == 1 else n[:len(n) // 2] + ch + n[len(n) // 2:])
+        return set_at(doc, p, new), kind
     if kind == 'length':
         seqs = [(p, n) for p, n in nodes if isinstance(n, (str, list)) and not (p and p[-1] == '.tag')]
         if not seqs:
